@@ -85,6 +85,9 @@ def check_layout(arg):
         # fixed form: expected text squeezed, label, name, span
         L = layout.fixed_layout(st, rng, gen.USER_NAMES, wrap=rng.choice([72, 40, 30, 66]), contc=rng.choice("&1$x+"),
                                 cmt=rng.choice("Cc*!"), label_style=rng.choice(["left", "right", "mid"]), comments=True)
+        import props.c05 as c05mod  # noqa
+        if not c05mod.no_blank_before_wrap(L):
+            return []      # blanks at the end of a continued fixed-form line are stripped: recorded under C05 (F10)
         got = [x for x in observed_items(L.text(), keep, free=False) if x[0] == "L"]
         exp = [("L", layout.squeeze(s.text), s.label, s.name, L.stmt_span[k]) for k, s in enumerate(st)]
         form = "fixed"
